@@ -5,6 +5,11 @@ Protocol (binary in, JSON lines out, one item at a time):
                      flags: 1 = also PSD.read with raw payloads (what the Lean skeleton model computes)
                             2 = export level 1 (document composite() and topil()) when the file opens
                             4 = export level 2 (first layers: topil(), numpy())
+                            16 = also the typed PSD.read under a COUNTING io.BytesIO (every fp.read call, the bytes it
+                                returned, every io.BytesIO(data) the reader creates): what the Lean counting twin
+                                `open.cost` bounds; answer field "count"
+                            32 = also PSDImage.open(<path of a temporary file holding the bytes>): a buffered file object
+                                reserves what read(n) is ASKED for (io.BytesIO allocates what it returns); answer field "path"
                             8 = afterwards run the BATTERY in the same interpreter (state leaking from one open into the
                                 next): headers that must be rejected, good files that must open exactly as they did when
                                 this process was fresh.  The battery is a JSON file named by env C06_BATTERY
@@ -145,6 +150,18 @@ def main():
                 best = ".".join(x for x in (mod, cn, fr.f_code.co_name) if x)
         return best or "?"
 
+    def site_all(tb):
+        """innermost psd_tools frame, utils included: 'module.function'"""
+        best = None
+        for fr, _ln in traceback.walk_tb(tb):
+            fn = fr.f_code.co_filename
+            if "psd_tools" in fn and not fn.startswith("<"):
+                mod = fn.rsplit("/", 1)[-1][:-3]
+                cls = fr.f_locals.get("cls")
+                cn = getattr(cls, "__name__", None)
+                best = ".".join(x for x in (mod, cn if mod != "utils" else None, fr.f_code.co_name) if x)
+        return best or "?"
+
     def outcome(e):
         kind = "exception"
         if isinstance(e, MemoryError):
@@ -152,7 +169,7 @@ def main():
         elif not isinstance(e, Exception):
             kind = "non-exception"
         return {"k": kind, "cls": type(e).__name__, "err": core.err_class(e), "msg": str(e)[:160],
-                "where": where(e.__traceback__)}
+                "where": where(e.__traceback__), "site_all": site_all(e.__traceback__)}
 
     def guarded(fn):
         t = time.perf_counter()
@@ -163,6 +180,95 @@ def main():
             o = outcome(e)
             del e
             return o, time.perf_counter() - t
+
+    # ---- the counting stream (flag 16)
+    _Real = io.BytesIO
+    SKELETON = {"PSD", "ImageResources", "ImageResource", "LayerAndMaskInformation", "LayerInfo", "LayerRecords",
+                "LayerRecord", "TaggedBlocks", "TaggedBlock", "LayerInfoBlock", "ChannelImageData", "ChannelDataList",
+                "ChannelData", "MaskData", "LayerBlendingRanges", "GlobalLayerMaskInfo", "ImageData", "FileHeader"}
+
+    class Counters:
+        reads = 0
+        bytes = 0
+        inits = 0
+        init_bytes = 0
+        limit = None
+        culprit = None
+
+    def culprit():
+        """outermost payload class whose read is on the stack (the class the volume is attributed to)"""
+        f = sys._getframe(2)
+        names = []
+        while f is not None:
+            if "psd_tools" in f.f_code.co_filename:
+                cls = f.f_locals.get("cls")
+                cn = getattr(cls, "__name__", None)
+                if cn and f.f_code.co_name in ("read", "_read_body", "frombytes"):
+                    names.append(cn)
+            f = f.f_back
+        for cn in reversed(names):
+            if cn not in SKELETON:
+                return cn
+        return names[0] if names else "?"
+
+    class CountingBytesIO(_Real):
+        def __init__(self, initial_bytes=b""):
+            Counters.inits += 1
+            Counters.init_bytes += len(initial_bytes)
+            _Real.__init__(self, initial_bytes)
+
+        def read(self, *a):
+            b = _Real.read(self, *a)
+            Counters.reads += 1
+            Counters.bytes += len(b)
+            if Counters.limit is not None and Counters.culprit is None and Counters.bytes > Counters.limit:
+                Counters.culprit = culprit()
+            return b
+
+    def counted(data):
+        Counters.reads = Counters.bytes = Counters.inits = Counters.init_bytes = 0
+        Counters.culprit = None
+        Counters.limit = 400 * len(data) + (1 << 20)
+        io.BytesIO = CountingBytesIO
+        try:
+            f = CountingBytesIO(data)
+            Counters.inits, Counters.init_bytes = 0, 0          # the input stream itself is not a copy the reader made
+            try:
+                PSD.read(f)
+                return {"tell": f.tell()}
+            finally:
+                f.close()
+        finally:
+            io.BytesIO = _Real
+
+    def counters():
+        return {"reads": Counters.reads, "bytes": Counters.bytes, "inits": Counters.inits, "init_bytes": Counters.init_bytes,
+                "culprit": Counters.culprit}
+
+    def max_lr16_depth():
+        """how many nested Lr16 blocks the counted PSD.read gets through before RecursionError (the `D` of open.cost)"""
+        try:
+            import c06_gen as G
+
+            def doc(depth):
+                return G.document(G.header(), b"", b"", G.lam(G.layer_info(G.nested_lr16(depth)), G.P("I", 0)), None)
+
+            def ok(depth):
+                try:
+                    counted(doc(depth))
+                    return True
+                except RecursionError:
+                    return False
+            lo, hi = 0, 600
+            while lo < hi:
+                mid = (lo + hi + 1) // 2
+                if ok(mid):
+                    lo = mid
+                else:
+                    hi = mid - 1
+            return lo
+        except Exception:  # noqa
+            return None
 
     # ---- the battery: fresh-state reference
     import hashlib
@@ -223,7 +329,7 @@ def main():
     # running main thread without the GIL and segfaulted about once per 15 000 items - a false crash.)
     faulthandler.register(signal.SIGUSR1, file=sys.stderr, all_threads=False)
     send({"hello": 1, "pid": os.getpid(), "base_vm": base_vm, "rlimit_as": limit, "base_rss_kb": st.get("VmRSS", 0),
-          "hwm_reset": hwm_reset, "recursion_limit": sys.getrecursionlimit(),
+          "hwm_reset": hwm_reset, "recursion_limit": sys.getrecursionlimit(), "max_lr16_depth": max_lr16_depth(),
           "rle_impl": getattr(__import__("psd_tools.compression", fromlist=["rle_impl"]).rle_impl, "__name__", "?"),
           "python": sys.version.split()[0], "psd_tools": getattr(psd_tools, "__version__", "?"),
           "battery": bat_ref})
@@ -275,6 +381,26 @@ def main():
                         PSD.read(f)
                         return {"tell": f.tell()}
             msg["raw"], msg["t_raw"] = guarded(raw)
+        if flags & 16:
+            msg["count"], msg["t_count"] = guarded(lambda: counted(data))
+            msg["count"].update(counters())
+        if flags & 32:
+            def from_path():
+                import tempfile
+                fd, path = tempfile.mkstemp(suffix=".psd")
+                try:
+                    with os.fdopen(fd, "wb") as f:
+                        f.write(data)
+                    PSDImage.open(path)
+                finally:
+                    try:
+                        os.unlink(path)
+                    except OSError:
+                        pass
+            msg["path"], _t = guarded(from_path)
+            if msg["path"]["k"] == "memory":
+                # the call site that handed the declared length to read(): innermost psd_tools frame, utils included
+                msg["path"]["site"] = msg["path"].get("site_all") or msg["path"]["where"]
         holder = {}
 
         def op():
